@@ -23,6 +23,7 @@ type FakeConn struct {
 	Rows    [][]any
 	Copies  int
 	Queries int
+	OnQuery func() // run once, inside the first QueryRow (re-entrancy)
 }
 
 func (f *FakeConn) CopyFrom(ctx context.Context, t pgx.Identifier, cols []string, src pgx.CopyFromSource) (int64, error) {
@@ -76,6 +77,11 @@ func (r fakeRow) Scan(dest ...any) error {
 
 func (f *FakeConn) QueryRow(ctx context.Context, q string, args ...any) pgx.Row {
 	f.Queries++
+	if f.OnQuery != nil {
+		g := f.OnQuery
+		f.OnQuery = nil
+		g()
+	}
 	m := refQuery.FindStringSubmatch(q)
 	if m == nil {
 		return fakeRow{err: fmt.Errorf("fakeconn: syntax error in %q", q)}
